@@ -724,7 +724,7 @@ func (c *Ctx) cmdApplies(rule string, file string, ops []string, clause string) 
 			if gi := c.FuncOfObj(fn); gi != nil && gi.Decl.Body != nil && gi.Pkg == fi.Pkg {
 				takesTree := false
 				for _, a := range call.Args {
-					if t := info.TypeOf(a); t != nil && isTreePtr(t) {
+					if t := info.TypeOf(a); t != nil && (isTreePtr(t) || strings.HasSuffix(t.String(), "tree.Trees")) {
 						takesTree = true
 					}
 				}
@@ -769,7 +769,7 @@ func (c *Ctx) cmdApplies(rule string, file string, ops []string, clause string) 
 				if gi := c.FuncOfObj(fn); gi != nil && gi.Decl.Body != nil {
 					takesTree := false
 					for _, a := range call.Args {
-						if t := info.TypeOf(a); t != nil && isTreePtr(t) {
+						if t := info.TypeOf(a); t != nil && (isTreePtr(t) || strings.HasSuffix(t.String(), "tree.Trees")) {
 							takesTree = true
 						}
 					}
@@ -816,6 +816,30 @@ func (c *Ctx) cmdApplies(rule string, file string, ops []string, clause string) 
 			nw++
 			key := fmt.Sprintf("%s/write#%d", funcName(fi.Obj), nw)
 			good := false
+			// the helper that writes is the helper that applies the operation (`collapseAndWrite(f, item)`):
+			// inside it the operation comes before the Newick text is taken
+			if viaHelper && isOp(call) {
+				if gi := c.FuncOfObj(fn); gi != nil && gi.Decl.Body != nil {
+					var opPos, nwPos token.Pos
+					for _, inner := range callsIn(gi.Decl.Body, true) {
+						g := calleeOf(gi.Pkg.TypesInfo, inner)
+						if g == nil || !inRepo(g) {
+							continue
+						}
+						for _, o := range ops {
+							if g.Name() == o && !opPos.IsValid() {
+								opPos = inner.Pos()
+							}
+						}
+						if g.Name() == "Newick" && !nwPos.IsValid() {
+							nwPos = inner.Pos()
+						}
+					}
+					if opPos.IsValid() && nwPos.IsValid() && opPos < nwPos {
+						good = true
+					}
+				}
+			}
 			for _, oc := range opCalls {
 				if oc.Pos() >= call.Pos() || !nodeContains(loopBody, oc.Pos()) {
 					continue
